@@ -191,11 +191,14 @@ pub mod thread {
     pub fn current() -> Thread {
         Thread { inner: shuttle::thread::current(), tok: my_tok() }
     }
+    /// spurious returns from park can be switched off by a scenario that uses a completed sleep as a
+    /// synchronisation point with the timer thread (plain atomic: set at the start of every execution)
+    pub static SPURIOUS: std::sync::atomic::AtomicBool = std::sync::atomic::AtomicBool::new(true);
     pub fn park() {
         critical_section::probe(5);
         let tok = my_tok();
         let mut g = tok.m.lock().unwrap();
-        if !*g && shuttle::rand::thread_rng().gen_ratio(1, 16) {
+        if !*g && SPURIOUS.load(std::sync::atomic::Ordering::Relaxed) && shuttle::rand::thread_rng().gen_ratio(1, 16) {
             return; // spurious wake-up
         }
         while !*g {
